@@ -319,11 +319,11 @@ namespace AgVerif.ShortCircuit
 
 /-! ### the code's decision procedure only ever performs sound merges -/
 
-theorem mergeEls_sound {g : Bool} {G : CGraph} {n1 n2 : Nat} {nd : CNode} {G' : CGraph}
+theorem mergeEls_sound {g : Guard} {G : CGraph} {n1 n2 : Nat} {nd : CNode} {G' : CGraph}
     (hl : G.look n1 = some nd) (hne : ¬ (n1 = nd.t ∨ n1 = nd.f))
-    (h : mergeEls g G n1 nd = some (n2, G')) :
-    ∃ m, MergeOK G n1 n2 m ∧ G' = G.merged n1 n2 m ∧ (g = true → n2 ≠ G.entry) := by
-  unfold mergeEls at h
+    (h : mergeElsG g G n1 nd = some (n2, G')) :
+    ∃ m, MergeOK G n1 n2 m ∧ G' = G.merged n1 n2 m ∧ (∃ x, G.look n2 = some x ∧ g G n2 x = true) := by
+  unfold mergeElsG at h
   simp only at h
   cases hle : G.look nd.f with
   | none => rw [hle] at h; cases h
@@ -335,10 +335,7 @@ theorem mergeEls_sound {g : Bool} {G : CGraph} {n1 n2 : Nat} {nd : CNode} {G' : 
       simp only [Bool.and_eq_true, beq_iff_eq, Bool.or_eq_true, Bool.not_eq_true', bne_iff_ne, ne_eq] at hc
       have P : MergePre G n1 nd.f nd en :=
         ⟨hl, hle, fun h => hne (Or.inr h), hc.1, Or.inr rfl⟩
-      have hent : g = true → nd.f ≠ G.entry := by
-        intro hg; rcases hc.2 with h | h
-        · rw [hg] at h; cases h
-        · exact h
+      have hent : ∃ x, G.look nd.f = some x ∧ g G nd.f x = true := ⟨en, hle, hc.2⟩
       split at h
       · cases h
       · split at h
@@ -356,10 +353,10 @@ theorem mergeEls_sound {g : Bool} {G : CGraph} {n1 n2 : Nat} {nd : CNode} {G' : 
           · cases h
     · cases h
 
-theorem mergeAt_sound {g : Bool} {G : CGraph} {n1 n2 : Nat} {G' : CGraph}
-    (h : mergeAt g G n1 = some (n2, G')) :
-    ∃ m, MergeOK G n1 n2 m ∧ G' = G.merged n1 n2 m ∧ (g = true → n2 ≠ G.entry) := by
-  unfold mergeAt at h
+theorem mergeAtG_sound {g : Guard} {G : CGraph} {n1 n2 : Nat} {G' : CGraph}
+    (h : mergeAtG g G n1 = some (n2, G')) :
+    ∃ m, MergeOK G n1 n2 m ∧ G' = G.merged n1 n2 m ∧ (∃ x, G.look n2 = some x ∧ g G n2 x = true) := by
+  unfold mergeAtG at h
   cases hl : G.look n1 with
   | none => rw [hl] at h; cases h
   | some nd =>
@@ -379,10 +376,7 @@ theorem mergeAt_sound {g : Bool} {G : CGraph} {n1 n2 : Nat} {G' : CGraph}
           simp only [Bool.and_eq_true, beq_iff_eq, Bool.or_eq_true, Bool.not_eq_true', bne_iff_ne, ne_eq] at hc
           have P : MergePre G n1 nd.t nd tn :=
             ⟨hl, hlt, fun h => hne (Or.inl h), hc.1, Or.inl rfl⟩
-          have hent : g = true → nd.t ≠ G.entry := by
-            intro hg; rcases hc.2 with h | h
-            · rw [hg] at h; cases h
-            · exact h
+          have hent : ∃ x, G.look nd.t = some x ∧ g G nd.t x = true := ⟨tn, hlt, hc.2⟩
           split at h
           · cases h
           · split at h
@@ -400,22 +394,30 @@ theorem mergeAt_sound {g : Bool} {G : CGraph} {n1 n2 : Nat} {G' : CGraph}
               · cases h
         · exact mergeEls_sound hl hne h
 
+theorem mergeAt_sound {g : Bool} {G : CGraph} {n1 n2 : Nat} {G' : CGraph}
+    (h : mergeAt g G n1 = some (n2, G')) :
+    ∃ m, MergeOK G n1 n2 m ∧ G' = G.merged n1 n2 m ∧ (g = true → n2 ≠ G.entry) := by
+  obtain ⟨m, ok, hG, x, _, hx⟩ := mergeAtG_sound h
+  refine ⟨m, ok, hG, fun hg => ?_⟩
+  subst hg
+  simpa [guardCurrent] using hx
+
 /-- any replayed sequence of merges (any length, any nesting) keeps the entry and the routing from it -/
-theorem replay_reach {G G' : CGraph} (tr : List (Nat × Nat)) (h : replay true G tr = some G') :
+theorem replay_reach {G G' : CGraph} (tr : List (Nat × Nat)) (h : replayG guardCurrent G tr = some G') :
     G'.entry = G.entry ∧ ∀ env e, Reach G env G.entry e ↔ Reach G' env G'.entry e := by
   induction tr generalizing G with
-  | nil => simp only [replay, Option.some.injEq] at h; subst h; exact ⟨rfl, fun _ _ => Iff.rfl⟩
+  | nil => simp only [replayG, Option.some.injEq] at h; subst h; exact ⟨rfl, fun _ _ => Iff.rfl⟩
   | cons p tr ih =>
     obtain ⟨n1, n2⟩ := p
-    simp only [replay] at h
-    cases hm : mergeAt true G n1 with
+    simp only [replayG] at h
+    cases hm : mergeAtG guardCurrent G n1 with
     | none => rw [hm] at h; cases h
     | some r =>
       obtain ⟨m2, G1⟩ := r
       rw [hm] at h
       simp only at h
       split at h
-      · obtain ⟨m, ok, hG1, hent⟩ := mergeAt_sound hm
+      · obtain ⟨m, ok, hG1, hent⟩ := mergeAt_sound (g := true) hm
         have hent := hent rfl
         have hentry : G1.entry = G.entry := by
           rw [hG1]; simp only [CGraph.merged]
